@@ -14,6 +14,14 @@ func (Declaration).Name
   pure
   trusted
 
+func (Alias).GetTokens
+  pure
+  trusted
+
+func (Alias).GetArgs
+  pure
+  trusted
+
 // position order: "sorted by occurrence in the source file"
 spec posLess(a, b token.Position) bool := a.Line < b.Line || (a.Line == b.Line && a.Column < b.Column)
 
